@@ -258,7 +258,8 @@ def plan(tier):
     if tier == 'quick':
         return [
             (trees(3, 1), FORMS, 1, ('adjacent',), True),                 # chains to depth 3, all six forms
-            (trees(2, 2), ('sib', 'up', 'url', 'sys'), 1, ('adjacent', 'separated'), False),
+            (trees(2, 2), ('sib', 'up', 'sys'), 1, ('adjacent', 'separated'), False),
+            (trees(1, 2), FORMS, 1, ('adjacent', 'separated'), False),
         ]
     return [
         (trees(4, 1), FORMS, 2, ('adjacent',), True),
